@@ -128,6 +128,27 @@ func toPB(d *vx.Dict, e *HExpr, rng *rand.Rand, wire bool, inList bool) *proto.Q
 	return &proto.Query_Expression{} // oneof not set
 }
 
+// hToUpdog builds the library expression of a hole-free rank expression.
+func hToUpdog(d *vx.Dict, e *HExpr) updog.Expression {
+	switch e.Op {
+	case "eq":
+		return &updog.ExprEqual{Column: d.Col(e.Col), Value: d.Val(e.Val)}
+	case "not":
+		return &updog.ExprNot{Expr: hToUpdog(d, e.E)}
+	case "and":
+		x := &updog.ExprAnd{}
+		for _, s := range e.Es {
+			x.Exprs = append(x.Exprs, hToUpdog(d, s))
+		}
+		return x
+	}
+	x := &updog.ExprOr{}
+	for _, s := range e.Es {
+		x.Exprs = append(x.Exprs, hToUpdog(d, s))
+	}
+	return x
+}
+
 func toPBQuery(d *vx.Dict, q rpcQuery, rng *rand.Rand, wire bool) *proto.Query {
 	pq := &proto.Query{Id: int32(q.ID), Expr: toPB(d, q.E, rng, wire, false)}
 	for _, c := range q.GB {
@@ -155,9 +176,17 @@ func freePort() string {
 }
 
 func startServer(bin, index string, cache, preload bool) (*server, error) {
+	return startServerSized(bin, index, cache, preload, 0)
+}
+
+// startServerSized: maxCache > 0 sets --max-cache-size (bytes).
+func startServerSized(bin, index string, cache, preload bool, maxCache uint64) (*server, error) {
 	for attempt := 0; attempt < 5; attempt++ {
 		s := &server{addr: freePort(), stderr: &bytes.Buffer{}, done: make(chan error, 1)}
 		args := []string{"server", "-l", s.addr, "-d", freePort(), "-f", index, fmt.Sprintf("--enable-cache=%v", cache)}
+		if maxCache > 0 {
+			args = append(args, "-s", fmt.Sprint(maxCache))
+		}
 		if preload {
 			args = append(args, "-p")
 		}
@@ -305,9 +334,25 @@ func replayRPC(args []string) error {
 	if err != nil {
 		return err
 	}
+	// what the library itself answers for members whose outcome the specification leaves open
+	// (operators without operands): the service must answer the same (C13: "equal what the library returns")
+	libAny := map[string]vx.Res{}
+	anyKey := func(q rpcQuery) string { b, _ := json.Marshal(q); return string(b) }
 	for _, ln := range lines {
 		rep.Behaviours++
 		for qi, q := range ln.Batch {
+			if ln.Reply.Kind == "response" && ln.Reply.Results[qi].Out.Kind == "any" {
+				var res *updog.Result
+				var qerr error
+				// built directly with the library's own types (not through the conversion under test)
+				lq := &updog.Query{Expr: hToUpdog(dict, q.E)}
+				for _, c := range q.GB {
+					lq.GroupBy = append(lq.GroupBy, dict.Col(c))
+				}
+				if p := vx.Safely(func() { res, qerr = idx.Execute(lq) }); p == nil && qerr == nil {
+					libAny[anyKey(q)] = dict.FromResult(res, nil)
+				}
+			}
 			rep.Steps++
 			pq := toPBQuery(dict, q, rng, false)
 			var res *updog.Result
@@ -345,9 +390,10 @@ func replayRPC(args []string) error {
 		fdb.Close()
 	}
 	// wire path
-	cfgs := [][2]bool{{true, false}, {false, false}, {true, true}, {false, true}}
+	cfgs := [][2]bool{{true, false}, {false, false}, {true, true}, {false, true}, {true, false}, {true, true}, {true, false}}
+	cacheSizes := []uint64{0, 0, 0, 0, 16, 40, 72} // the last three: caches about as small as one entry
 	for ci, cfg := range cfgs {
-		srv, err := startServer(*bin, path, cfg[0], cfg[1])
+		srv, err := startServerSized(*bin, path, cfg[0], cfg[1], cacheSizes[ci])
 		if err != nil {
 			return err
 		}
@@ -366,11 +412,18 @@ func replayRPC(args []string) error {
 			if msg != "" && ln.MayErr && rerr != nil {
 				msg = "" // rejecting the batch is allowed too
 			}
+			if msg == "" && rerr == nil && ln.Reply.Kind == "response" {
+				for qi, q := range ln.Batch {
+					if want, ok := libAny[anyKey(q)]; ok && ln.Reply.Results[qi].Out.Kind == "any" && qi < len(resp.Results) && !fromPBResult(dict, resp.Results[qi]).Equal(want) {
+						msg = fmt.Sprintf("result %d differs from what the library returns for the same (operand-less) query", qi)
+					}
+				}
+			}
 			if msg != "" || !srv.alive() {
 				if !srv.alive() {
 					msg = "server process died: " + tail(srv.stderr.String(), 600)
 				}
-				rep.Mismatch(map[string]any{"kind": "rpc-reply", "cache": cfg[0], "preload": cfg[1], "batch": ln.Batch, "problem": msg})
+				rep.Mismatch(map[string]any{"kind": "rpc-reply", "cache": cfg[0], "cachesize": cacheSizes[ci], "preload": cfg[1], "batch": ln.Batch, "problem": msg})
 			}
 			// the server keeps answering well-formed requests
 			if ln.Reply.Kind == "rpcerror" || li%25 == 0 || !srv.alive() {
